@@ -106,6 +106,9 @@ class Transition:
                         vals.append(v)
                 for v in vals:
                     cs.append(z3.Or(v <= nows[0] - 60 * 10**9, v >= nows[-1] + 60 * 10**9))
+                    if 'min_age' in args:
+                        # age thresholds: nothing sits within a minute of "now - min_age" either
+                        cs.append(z3.Or(v <= nows[0] - args['min_age'] - 60 * 10**9, v >= nows[-1] - args['min_age'] + 60 * 10**9))
                 return cs
             ex.env['replay_margins'] = margins
             err, res = T.call(ex, db, args)
